@@ -112,6 +112,10 @@ impl Built {
             .map(|i| self.blocks[i].clone())
             .collect()
     }
+    /// The builder node that follows the most recently built block.
+    pub fn node_ref(&self) -> &Node {
+        &self.node
+    }
     pub fn stats(&self) -> HistStats {
         let mut s = HistStats::default();
         s.blocks = self.blocks.len();
